@@ -84,3 +84,39 @@ def check_c11(prop, tier, replay):
                       "real goroutine schedules are sampled (perturbed by seeded sleeps inside the callbacks), "
                       "not enumerated; the TLA+ monitor decides each recorded schedule completely",
                   ])
+
+
+def _snap_batches(tier):
+    n, tr, rounds = (12, 4, 10) if tier == "quick" else (32, 10, 12)
+    return [{"first": k * tr, "traces": tr, "mode": "snap", "dur": 0, "rounds": rounds,
+             "store": (None, "tan")[k % 2] if k % 4 == 3 else None} for k in range(n)]
+
+
+def _snap_env(b, seed, out):
+    e = _env(b, seed, out)
+    e["VERIF_ROUNDS"] = b["rounds"]
+    return e
+
+
+def check_c16(prop, tier, replay):
+    mc = [("MCSnapshotDir", "MC_SnapshotDir.cfg", 600, 8)]
+    if tier == "thorough":
+        mc.append(("MCSnapshotDir", "MC_SnapshotDir_big.cfg", 1800, 12))
+    return tv_run(prop, tier, replay, harness_dirs=HARNESS, pkg=".", test="TestVerifNhsim",
+                  trace_module="SnapshotDirTrace", tag="SD-REPORT", count_tag="SD-COUNT",
+                  batches=_snap_batches(tier), env_of=_snap_env, mc=mc, mc_deadlock=False,
+                  mc_expect_violation=[("MCSnapshotDir", "MC_SnapshotDir_nosync.cfg", "CrashWorthy"),
+                                       ("MCSnapshotDir", "MC_SnapshotDir_nodirsync.cfg", "CrashWorthy")],
+                  level="fault_enumeration", stats_tag="NHSTATS", panic_ok=True, max_workers=8,
+                  build_name="nhsim",
+                  what="snapshot directory not crash-atomic (recorded snapshot not on disk, incomplete / temporary / "
+                       "orphaned directory left after the start-up cleanup, replica older than its recorded snapshot, "
+                       "or a panic during recovery)",
+                  sig_of=lambda op, f: "C16:%s" % op,
+                  assumptions=[
+                      "power loss = strict in-memory file system of lni/vfs reset to its synced state at a seeded "
+                      "file-system operation; a quirk of that file system (Rename leaves the new name in the node "
+                      "after the reset) is repaired by the harness (nhFixNames)",
+                      "snapshots with external files cannot be produced on the in-memory file system "
+                      "(rsm.Files.PrepareFiles uses os.Link): that path is not exercised",
+                  ])
